@@ -1,11 +1,16 @@
 (* C11 driver.  One case line = one executed schedule of the harness:
      (c11 MODE (reqs (key op dedup "ok" "fail" "can")...)
                (trace (CMD (actor STATUS)...)...)
-               (final (actor RES shared cancelled ANS)...))
+               (final (actor RES shared cancelled ANS WR)...)
+               (reg N))
+   CMD: (start i) (rel i) (ans i ok|failbody|canbody|errup|errctx|panic) (wr i ok|fail|panic) (cancel i);
+   RES: (wrote "d") | (wrerr j "d") | (err up j) | (err ctx j) | (err other "...") | (crash) | (panic "...") | none;
+   N = keys of this schedule still registered in the table when nothing can move any more.
    The trace is replayed on the extracted transition system of the FIXED code ([Inb.step fixed] for
    MODE inb / inbe2e, [Sub.step fixed] for sube2e): every command must be a step the model allows,
    and after every command the visible status of every actor (parked where, blocked, returned with
-   what) must agree.  The spec checker [spec_b] runs on the implementation's own outcomes. *)
+   what) must agree, and at the end the number of registered keys.  The spec checker [spec_q_b]
+   (per-actor clauses, then the registry) runs on the implementation's own outcomes. *)
 
 type vstat = VNew | VAt of string | VBlocked | VRet of string | VHidden
 
@@ -28,8 +33,12 @@ let parse_status (x : sexp) : vstat =
   | L (A "stuck" :: _) -> VHidden
   | _ -> raise (Sexp_error ("status: " ^ print_sexp x))
 
-let show_outcome (o : outcome) : string =
+let show_outcome (i : int) (wr : wans option) (o : outcome) : string =
   match o with
+  | OWrote (_, d, _) when wr = Some WFail ->
+    "(wrerr " ^ string_of_int i ^ " " ^ quote_string (string_of_bytes d) ^ ")"
+  | OCrash None -> "(crash)"
+  | OCrash (Some _) -> "(wrote \"\")"     (* subgraph: res.out = nil, err = nil *)
   | OWrote (_, d, _) -> "(wrote " ^ quote_string (string_of_bytes d) ^ ")"
   | OErr (EUp a) -> "(err up " ^ string_of_int (int_of_nat a) ^ ")"
   | OErr (ECtx a) -> "(err ctx " ^ string_of_int (int_of_nat a) ^ ")"
@@ -37,7 +46,12 @@ let show_outcome (o : outcome) : string =
 
 let answer_of = function
   | "ok" -> AOk | "failbody" -> AFailBody | "canbody" -> ACanBody | "errup" -> AErrUp | "errctx" -> AErrCtx
+  | "panic" -> APanic
   | a -> raise (Sexp_error ("answer: " ^ a))
+
+let wans_of = function
+  | "ok" -> WOk | "fail" -> WFail | "panic" -> WPanic
+  | a -> raise (Sexp_error ("write answer: " ^ a))
 
 (* a model, abstracted *)
 type 's model = {
@@ -46,7 +60,13 @@ type 's model = {
   vis : 's -> int -> vstat;
   waiting : 's -> int -> bool;
   shared : 's -> int -> bool;
+  registered : 's -> int;     (* distinct keys in the table *)
 }
+
+let count_keys (reqs : req list) (reg : n -> bool) : int =
+  let seen = ref [] in
+  List.iter (fun r -> if reg r.rkey && not (List.mem r.rkey !seen) then seen := r.rkey :: !seen) reqs;
+  List.length !seen
 
 let inb_model (reqs : req list) : Inb.state model = {
   init = Inb.init;
@@ -58,11 +78,13 @@ let inb_model (reqs : req list) : Inb.state model = {
     | Inb.PY1 -> VAt "y1"
     | Inb.PWait -> VBlocked
     | Inb.PWork -> VAt "work"
+    | Inb.PWrite | Inb.PFWrite -> VAt "write"
     | Inb.PClose -> VAt "y2"
-    | Inb.PDone -> (match Inb.a_out a with Some o -> VRet (show_outcome o) | None -> VRet "?")
+    | Inb.PDone -> (match Inb.a_out a with Some o -> VRet (show_outcome i (Inb.a_wr a) o) | None -> VRet "?")
     | _ -> VHidden);
   waiting = (fun s i -> Inb.a_pc (Inb.act s (nat_of_int i)) = Inb.PWait);
   shared = (fun s i -> match Inb.a_out (Inb.act s (nat_of_int i)) with Some (OWrote (_, _, Some _)) -> true | _ -> false);
+  registered = (fun s -> count_keys reqs (fun k -> Inb.tbl s k <> None));
 }
 
 let sub_model (reqs : req list) : Sub.state model = {
@@ -76,15 +98,17 @@ let sub_model (reqs : req list) : Sub.state model = {
     | Sub.PWait -> VBlocked
     | Sub.PLoad -> VAt "load"
     | Sub.PClose -> VAt "y3"
-    | Sub.PDone -> (match Sub.a_out a with Some o -> VRet (show_outcome o) | None -> VRet "?")
+    | Sub.PDone -> (match Sub.a_out a with Some o -> VRet (show_outcome i None o) | None -> VRet "?")
     | _ -> VHidden);
   waiting = (fun s i -> Sub.a_pc (Sub.act s (nat_of_int i)) = Sub.PWait);
-  shared = (fun s i -> match Sub.a_out (Sub.act s (nat_of_int i)) with Some (OWrote (_, _, Some _)) -> true | _ -> false);
+  shared = (fun s i -> match Sub.a_out (Sub.act s (nat_of_int i)) with
+    | Some (OWrote (_, _, Some _)) | Some (OCrash (Some _)) -> true | _ -> false);
+  registered = (fun s -> count_keys reqs (fun k -> Sub.tbl s k <> None));
 }
 
 exception Corr of string
 
-let replay (type s) (m : s model) (n : int) (trace : sexp list) (final : sexp list) : bool =
+let replay (type s) (m : s model) (n : int) (trace : sexp list) (final : sexp list) (reg : int) : bool =
   let s = ref m.init in
   let seen = Array.make n VNew in
   let nontrivial = ref false in
@@ -114,6 +138,8 @@ let replay (type s) (m : s model) (n : int) (trace : sexp list) (final : sexp li
        | L [A "rel"; A i] -> let i = int_of_string i in do_step what (Tau (nat_of_int i)); advance i
        | L [A "ans"; A i; A k] ->
          let i = int_of_string i in do_step what (Ans (nat_of_int i, answer_of k)); advance i
+       | L [A "wr"; A i; A k] ->
+         let i = int_of_string i in do_step what (Wr (nat_of_int i, wans_of k)); advance i
        | L [A "cancel"; A i] -> do_step what (Cancel (nat_of_int (int_of_string i)))
        | _ -> raise (Sexp_error ("command: " ^ what)));
       (* followers in the select: they proceed on the implementation iff a wake-up is enabled *)
@@ -141,20 +167,24 @@ let replay (type s) (m : s model) (n : int) (trace : sexp list) (final : sexp li
       done
     | _ -> raise (Sexp_error "trace item")) trace;
   List.iter (fun f -> match f with
-    | L [A i; _; sh; _; _] ->
+    | L [A i; _; sh; _; _; _] ->
       let i = int_of_string i in
       if sbool sh <> m.shared !s i then
         raise (Corr (Printf.sprintf "shared flag of actor %d: impl=%b model=%b" i (sbool sh) (m.shared !s i)))
     | _ -> raise (Sexp_error "final")) final;
+  if m.registered !s <> reg then
+    raise (Corr (Printf.sprintf "keys still registered at the end: impl=%d model=%d" reg (m.registered !s)));
   !nontrivial
 
 let clause_name = function
   | CNoPanic -> "no_panic" | CReturns -> "each_returns" | CErrOrigin -> "err_origin"
   | CSharedKeyQuery -> "shared_key_query" | CTransparent -> "transparent"
+  | CWriteErr -> "write_error_private" | CRegistry -> "registry_clean"
 
 let handle (x : sexp) : (string * string) list =
   match x with
-  | L [A "c11"; A mode; L (A "reqs" :: rs); L (A "trace" :: trace); L (A "final" :: final)] ->
+  | L [A "c11"; A mode; L (A "reqs" :: rs); L (A "trace" :: trace); L (A "final" :: final); L [A "reg"; A reg]] ->
+    let reg = int_of_string reg in
     let reqs = List.map (fun r -> match r with
       | L [A key; A op; dd; ok; fl; cn] ->
         { rkey = n_of_int (int_of_string key); rquery = (op = "query"); rdedup = sbool dd;
@@ -166,15 +196,17 @@ let handle (x : sexp) : (string * string) list =
     let nt =
       try
         (match mode with
-         | "sube2e" -> replay (sub_model reqs) n trace final
-         | "inb" | "inbe2e" -> replay (inb_model reqs) n trace final
+         | "sube2e" -> replay (sub_model reqs) n trace final reg
+         | "inb" | "inbe2e" -> replay (inb_model reqs) n trace final reg
          | _ -> raise (Sexp_error ("mode " ^ mode)))
       with Corr msg -> res := ("mismatch", Printf.sprintf "corr:C11/%s %s" tag msg) :: !res; false in
     (* the spec, on the implementation's outcomes *)
     let os = List.map (fun f -> match f with
-      | L [A _; r; sh; cn; A ans] ->
+      | L [A _; r; sh; cn; A ans; A wr] ->
         let r = (match r with
           | A "none" -> RNone
+          | L [A "crash"] -> RCrash
+          | L [A "wrerr"; A j; d] -> RWrErr (nat_of_int (int_of_string j), sbytes d)
           | L [A "wrote"; d] -> RWrote (sbytes d)
           | L [A "err"; A "up"; A j] -> RErr (EUp (nat_of_int (int_of_string j)))
           | L [A "err"; A "ctx"; A j] -> RErr (ECtx (nat_of_int (int_of_string j)))
@@ -182,9 +214,10 @@ let handle (x : sexp) : (string * string) list =
           | L (A "panic" :: _) -> RPanic
           | _ -> raise (Sexp_error "result")) in
         { o_res = r; o_shared = sbool sh; o_cancelled = sbool cn;
-          o_ans = (if ans = "-" then None else Some (answer_of ans)) }
+          o_ans = (if ans = "-" then None else Some (answer_of ans));
+          o_wr = (if wr = "-" then None else Some (wans_of wr)) }
       | _ -> raise (Sexp_error "final")) final in
-    (match spec_b reqs os with
+    (match spec_q_b (mode = "sube2e") reqs os (nat_of_int reg) with
      | None -> ()
      | Some (i, c) ->
        let i = int_of_nat i in
